@@ -194,6 +194,9 @@ func runC16(c *Ctx) {
 		r.Check("C16.fork-gate", "telemetry.Default resolved", "-", false, "global not found")
 	}
 
+	// "mode off" is decided by Dir.Mode: it must recognise off however the file was written
+	c02ModeRead(c, m, "C16.fork-gate")
+
 	// ---- marker first -----------------------------------------------------
 	var setenv ssa.CallInstruction
 	for _, cs := range callsIn(child, "os.Setenv") {
